@@ -76,16 +76,16 @@ Print Assumptions C04_offset_slices.
 
 (* ... every byte string that contains the payload has a Base64 text that contains one of the three values ... *)
 Theorem C04_offset_hit : forall pre p suf, bytes_ok (pre ++ p ++ suf) = true ->
-  exists i, (i < 3)%nat /\ infix (variant i p) (b64 (pre ++ p ++ suf)).
-Proof. exact offset_hit. Qed.
+  exists i, (i < 3)%nat /\ infix (variant i p) (rfc4648 (pre ++ p ++ suf)).
+Proof. exact offset_hit_rfc. Qed.
 Print Assumptions C04_offset_hit.
 
 (* ... every value is implied by the payload alone: whatever surrounds the payload at alignment i,
    value i stands at the corresponding position of the text ... *)
 Theorem C04_offset_payload_only : forall i pre p suf,
   (length pre mod 3 = i)%nat -> p <> [] -> bytes_ok (pre ++ p ++ suf) = true ->
-  occurs_at (4 * (length pre / 3) + start_off i)%nat (payload_text i p) (b64 (pre ++ p ++ suf)).
-Proof. exact payload_text_occurs. Qed.
+  occurs_at (4 * (length pre / 3) + start_off i)%nat (variant i p) (rfc4648 (pre ++ p ++ suf)).
+Proof. exact offset_payload_only_rfc. Qed.
 Print Assumptions C04_offset_payload_only.
 
 (* ... and no value contains padding *)
